@@ -116,6 +116,42 @@ AddrNames(S, rule) ==   \* in declaration order
   IN [k \in 1..Len(idx) |-> FieldName(rule, S.fields[idx[k]])]
 
 -----------------------------------------------------------------------------
+(* Did-you-mean (error/kind.rs:137-161, 205-220).  Similarity is an input  *)
+(* table computed by the harness with the metric the code delegates to     *)
+(* (strsim::jaro_winkler): `rank` is the dense rank of the f64 similarity  *)
+(* among all pairs (order-preserving, so no float arithmetic here),        *)
+(* `above` says whether it exceeds the fixed threshold 0.8.                *)
+
+SimRows == ndJsonDeserialize(IOEnv.SIMS)
+\* one row per unknown name u: [u, cs: <<[c, rank, above], ...>>]
+RowOf == [u \in {SimRows[i].u : i \in 1..Len(SimRows)} |-> CHOOSE i \in 1..Len(SimRows) : SimRows[i].u = u]
+Sim(u, c) == LET r == SimRows[RowOf[u]].cs IN r[CHOOSE j \in 1..Len(r) : r[j].c = c]
+SUGGEST == IOEnv.SUGGEST = "on"      \* the `suggestions` cargo feature
+
+\* did_you_mean: first candidate of maximal similarity among those above the threshold
+RECURSIVE DymFrom(_, _, _, _)
+DymFrom(u, cands, i, best) ==
+  IF i > Len(cands) THEN best
+  ELSE LET c == cands[i] s == Sim(u, c) IN
+       IF s.above /\ (best = "" \/ Sim(u, best).rank < s.rank)
+       THEN DymFrom(u, cands, i + 1, c) ELSE DymFrom(u, cands, i + 1, best)
+Dym(u, cands) == IF SUGGEST THEN DymFrom(u, cands, 1, "") ELSE ""
+
+\* ErrorUnknownField::add_alts: a later candidate list only ever improves the suggestion
+AddAltsLeaf(e, cands) ==
+  LET b == Dym(e.n, cands) IN
+  IF b = "" THEN e
+  ELSE IF e.alt = "" \/ Sim(e.n, b).rank > Sim(e.n, e.alt).rank THEN [e EXCEPT !.alt = b] ELSE e
+
+\* Error::add_sibling_alts_for_unknown_field (error/mod.rs:414): only at the error's origin
+RECURSIVE AddSiblingAlts(_, _)
+AddSiblingAlts(e, cands) ==
+  IF e.loc # <<>> THEN e
+  ELSE IF e.k = "unknown" THEN AddAltsLeaf(e, cands)
+  ELSE IF e.k = "multi" THEN [e EXCEPT !.ch = [i \in 1..Len(e.ch) |-> AddSiblingAlts(e.ch[i], cands)]]
+  ELSE e
+
+-----------------------------------------------------------------------------
 (* Results, spans                                                          *)
 
 NoErr      == Leaf("none", "")
@@ -272,8 +308,7 @@ StepItem(S, rule, st, it, p) ==
       ELSE Push(st, Spanned(Leaf("dup", nm), ItemSpan(p)))
     ELSE IF FlattenIdx(S) # 0 THEN [st EXCEPT !.flat = Append(@, [it |-> it, p |-> p])]
     ELSE IF S.allow_unknown THEN st
-    ELSE Push(st, Spanned([Leaf("unknown", it.name) EXCEPT !.alt = "?"], ItemSpan(p)))
-    \* alt = "?": "a suggestion may be attached here"; which one is decided by Suggest.tla (C17)
+    ELSE Push(st, Spanned([Leaf("unknown", it.name) EXCEPT !.alt = Dym(it.name, AddrNames(S, rule))], ItemSpan(p)))
 
 FoldItems(S, rule, st, items, pp, j) ==
   IF j > Len(items) THEN st
@@ -294,9 +329,11 @@ FlattenInit(S, rule, st) ==
   ELSE LET f == S.fields[fi]
            T == D(f.ty.id)
            inner == FinishStruct(T, T.rename_all, FoldFlat(T, T.rename_all, InitSt(T), st.flat, 1), <<>>, NoSpan)
+           names == AddrNames(S, rule)
        IN Noting(IF inner.ok
                  THEN [st EXCEPT !.slots[fi] = [seen |-> TRUE, has |-> TRUE, v |-> inner.v]]
-                 ELSE Push([st EXCEPT !.slots[fi].seen = TRUE], inner.e), inner)
+                 ELSE Push([st EXCEPT !.slots[fi].seen = TRUE],
+                           IF names = <<>> THEN inner.e ELSE AddSiblingAlts(inner.e, names)), inner)
 
 \* CheckMissing (field.rs:248-277), in field order
 RECURSIVE Missing(_, _, _, _)
@@ -354,6 +391,11 @@ VariantIdx(E, name) ==
   LET C == {i \in 1..Len(E.variants) : ~E.variants[i].skip /\ VariantName(E, E.variants[i]) = name}
   IN IF C = {} THEN 0 ELSE CHOOSE i \in C : \A j \in C : i <= j
 
+\* candidate list of the unknown-variant error (from_meta_impl.rs:104-118): the non-skipped variants, in order
+VariantNames(E) ==
+  LET idx == SelectSeq([i \in 1..Len(E.variants) |-> i], LAMBDA i : ~E.variants[i].skip)
+  IN [k \in 1..Len(idx) |-> VariantName(E, E.variants[idx[k]])]
+
 \* from_string (variant.rs:61-112)
 EnumFromString(E, s) ==
   LET i == VariantIdx(E, s) IN
@@ -375,7 +417,7 @@ EnumFromList(E, items, pp) ==
   ELSE LET it == items[1] p == Append(pp, 1) IN
     IF it.k = "lit" THEN Fail(Spanned(Leaf("format", "literal"), ItemSpan(p)))
     ELSE LET i == VariantIdx(E, it.name) IN
-      IF i = 0 THEN Fail(Spanned([Leaf("unknown", it.name) EXCEPT !.alt = "?"], ItemSpan(p)))
+      IF i = 0 THEN Fail(Spanned([Leaf("unknown", it.name) EXCEPT !.alt = Dym(it.name, VariantNames(E))], ItemSpan(p)))
       ELSE LET v == E.variants[i] nm == VariantName(E, v) IN
         CASE v.style = "unit" ->
                IF it.form = "word" THEN Ok(<<v.rust>>) ELSE Fail(Spanned(Leaf("format", "non-path"), ItemSpan(p)))
